@@ -1,4 +1,5 @@
 //! Workload engine: executable model of the VolumeManager API + monitors over the medium.
+pub mod crash;
 pub mod engine;
 pub mod gen;
 pub mod model;
